@@ -1,2 +1,597 @@
-// Package c05: correspondence harness for property C05 (stub — registers nothing yet).
+// Package c05: "tasks are placed only where constraints and resources allow".
+//
+// One input = one call of a piece of the placement code; the first atom says which:
+//
+//	(sat ATTRS CTS)                         constraint.Attributes.Satisfy
+//	(merge CHILD PARENT)                    constraint.Constraints.MergeParent
+//	(eff (LEVEL…) CLS)                      roleBase.getConstraints up a real role tree (nearest level first, last = root)
+//	                                        + Manager.BuildDescriptorConstraints;  CLS = - | CTS
+//	(res (CPU MEM PORTS) (CPU MEM RANGES INB))   task.Resources.Satisfy(offer resources, wants)
+//	(parse "expr")                          port.RangesFromExpression
+//	(mk PORTS CLASS)                        makeTaskForMesosResources on an offer with these ports (hook, synchronous)
+//	(round (CLASS…) ROOTCTS (OFFER…) (DESC…))    one whole OFFERS event through schedulerState.resourceOffers (hook)
+//
+//	ATTRS  = nil | ((name value) | (name) …)        (name) = non-text attribute
+//	CTS    = ((attribute value operator) …)         operator 0 = Equals
+//	CPU/MEM= - | n   in QUARTER units (n/4 cpus, n/4 MB); PORTS = - | RANGES; RANGES = ((begin end) …)
+//	INB    = (1|0 …)  inbound channels, 1 = tcp, 0 = ipc
+//	CLASS  = (CTS CPU MEM "ports expression" INB)   built by unmarshalling template YAML with the repo's unmarshallers
+//	OFFER  = (ATTRS (CPU MEM PORTS))                offer i has id o<i>
+//	DESC   = ((LEVEL…) CLASSINDEX|-)                constraint lists from the task role up to, not including, the root
+//
+// Observation = (S R payload): S/R say which of the two known behaviours the linked
+// Satisfy / RangesFromExpression show (c = as coded at the pin, f = with the proposed fix,
+// x = neither), probed once per process on two fixed witnesses; the Lean driver
+// models that behaviour. Payloads are described at each run* function.
 package c05
+
+import (
+	"encoding/json"
+	"fmt"
+	"os"
+	"sort"
+	"strconv"
+	"strings"
+	"sync"
+
+	"github.com/AliceO2Group/Control/core/task"
+	"github.com/AliceO2Group/Control/core/task/channel"
+	"github.com/AliceO2Group/Control/core/task/constraint"
+	"github.com/AliceO2Group/Control/core/task/taskclass"
+	"github.com/AliceO2Group/Control/core/task/taskclass/port"
+	"github.com/AliceO2Group/Control/core/workflow"
+	mesos "github.com/mesos/mesos-go/api/v1/lib"
+	"github.com/mesos/mesos-go/api/v1/lib/resources"
+	"github.com/mesos/mesos-go/api/v1/lib/scheduler"
+	"github.com/spf13/viper"
+	"gopkg.in/yaml.v3"
+
+	"verifharness/fw"
+	"verifharness/sx"
+)
+
+// ---- probing which behaviour is linked ---------------------------------------------
+
+var (
+	modeOnce     sync.Once
+	modeS, modeR string
+)
+
+func textAttr(n, v string) mesos.Attribute {
+	return mesos.Attribute{Name: n, Type: mesos.TEXT, Text: &mesos.Value_Text{Value: v}}
+}
+
+func probe() {
+	modeOnce.Do(func() {
+		viper.Set("configServiceUri", "mock://")
+		attrs := constraint.Attributes{textAttr("machine_id", "B"), textAttr("role", "flp")}
+		cts := constraint.Constraints{{Attribute: "machine_id", Value: "A"}, {Attribute: "role", Value: "flp"}}
+		if attrs.Satisfy(cts) {
+			modeS = "c"
+		} else {
+			modeS = "f"
+		}
+		r, err := port.RangesFromExpression("8000-8010")
+		switch {
+		case err == nil && len(r) == 1 && r[0].Begin == 8000 && r[0].End == 8000:
+			modeR = "c"
+		case err == nil && len(r) == 1 && r[0].Begin == 8000 && r[0].End == 8010:
+			modeR = "f"
+		default:
+			modeR = "x"
+		}
+	})
+}
+
+func wrap(payload *sx.Node) string {
+	probe()
+	return sx.L(sx.A(modeS), sx.A(modeR), payload).String()
+}
+
+// ---- conversions ---------------------------------------------------------------------
+
+func attrsOf(n *sx.Node) constraint.Attributes {
+	if !n.IsList {
+		return nil
+	}
+	out := constraint.Attributes{}
+	for _, a := range n.List {
+		if a.Len() == 1 {
+			out = append(out, mesos.Attribute{Name: a.At(0).Str(), Type: mesos.SCALAR, Scalar: &mesos.Value_Scalar{Value: 1}})
+		} else {
+			out = append(out, textAttr(a.At(0).Str(), a.At(1).Str()))
+		}
+	}
+	return out
+}
+
+func ctsOf(n *sx.Node) constraint.Constraints {
+	out := constraint.Constraints{}
+	for _, c := range n.List {
+		out = append(out, constraint.Constraint{Attribute: c.At(0).Str(), Value: c.At(1).Str(), Operator: constraint.Operator(c.At(2).Int())})
+	}
+	return out
+}
+
+func ctsNode(cts constraint.Constraints) *sx.Node {
+	n := sx.L()
+	for _, c := range cts {
+		n.Add(sx.L(sx.A(c.Attribute), sx.A(c.Value), sx.I(int(c.Operator))))
+	}
+	return n
+}
+
+func rangesOf(n *sx.Node) []mesos.Value_Range {
+	var out []mesos.Value_Range
+	for _, r := range n.List {
+		b, _ := strconv.ParseUint(r.At(0).Str(), 10, 64)
+		e, _ := strconv.ParseUint(r.At(1).Str(), 10, 64)
+		out = append(out, mesos.Value_Range{Begin: b, End: e})
+	}
+	return out
+}
+
+func rangesNode(rs []mesos.Value_Range) *sx.Node {
+	n := sx.L()
+	for _, r := range rs {
+		n.Add(sx.L(sx.U64(r.Begin), sx.U64(r.End)))
+	}
+	return n
+}
+
+func quarters(f float64) int { return int(f*4 + 0.5) }
+
+func qStr(q int) string { return fmt.Sprintf("%d.%02d", q/4, (q%4)*25) }
+
+// (CPU MEM PORTS) -> resources of an offer
+func resOf(n *sx.Node) mesos.Resources {
+	var rs mesos.Resources
+	if c := n.At(0); c.Str() != "-" {
+		rs = append(rs, resources.NewCPUs(float64(c.Int())/4).Resource)
+	}
+	if m := n.At(1); m.Str() != "-" {
+		rs = append(rs, resources.NewMemory(float64(m.Int())/4).Resource)
+	}
+	if p := n.At(2); p.IsList {
+		rs = append(rs, resources.Build().Name(resources.Name("ports")).Ranges(rangesOf(p)).Resource)
+	}
+	return rs
+}
+
+func portsNode(rs mesos.Resources) *sx.Node {
+	p, ok := resources.Ports(rs...)
+	if !ok {
+		return sx.A("-")
+	}
+	return rangesNode(p)
+}
+
+func yq(s string) string { return strconv.Quote(s) } // a Go-quoted ASCII string is a valid YAML double-quoted scalar
+
+func ctsYAML(b *strings.Builder, ind string, cts *sx.Node) {
+	if cts.Len() == 0 {
+		return
+	}
+	fmt.Fprintf(b, "%sconstraints:\n", ind)
+	for _, c := range cts.List {
+		fmt.Fprintf(b, "%s  - attribute: %s\n%s    value: %s\n", ind, yq(c.At(0).Str()), ind, yq(c.At(1).Str()))
+	}
+}
+
+// CLASS -> *taskclass.Class through the template unmarshaller (ResourceWants.UnmarshalYAML → RangesFromExpression)
+func classOf(name string, c *sx.Node) (*taskclass.Class, error) {
+	var b strings.Builder
+	fmt.Fprintf(&b, "name: %s\ncontrol:\n  mode: direct\ncommand:\n  value: \"true\"\n  user: \"nobody\"\n  shell: true\n", yq(name))
+	fmt.Fprintf(&b, "wants:\n  cpu: %s\n  memory: %s\n", yq(qStr(c.At(1).Int())), yq(qStr(c.At(2).Int())))
+	if e := c.At(3).Str(); e != "" {
+		fmt.Fprintf(&b, "  ports: %s\n", yq(e))
+	}
+	if c.At(4).Len() > 0 {
+		b.WriteString("bind:\n")
+		for i, ch := range c.At(4).List {
+			addr := "ipc"
+			if ch.Bool() {
+				addr = "tcp"
+			}
+			fmt.Fprintf(&b, "  - name: ch%d\n    type: pull\n    addressing: %s\n", i, addr)
+		}
+	}
+	ctsYAML(&b, "", c.At(0))
+	cl := &taskclass.Class{}
+	if err := yaml.Unmarshal([]byte(b.String()), cl); err != nil {
+		return nil, fmt.Errorf("class yaml: %v\n%s", err, b.String())
+	}
+	return cl, nil
+}
+
+// chainYAML writes, below an aggregator at `ind`, the levels outermost-first down to the task role.
+func chainYAML(b *strings.Builder, ind, name string, levels []*sx.Node, load string) {
+	// levels[0] is the NEAREST (task role); write from the farthest
+	for i := len(levels) - 1; i >= 0; i-- {
+		fmt.Fprintf(b, "%s- name: %s_%d\n", ind, name, i)
+		ctsYAML(b, ind+"  ", levels[i])
+		if i == 0 {
+			fmt.Fprintf(b, "%s  task:\n%s    load: %s\n", ind, ind, yq(load))
+		} else {
+			fmt.Fprintf(b, "%s  roles:\n", ind)
+			ind += "    "
+		}
+	}
+}
+
+// buildTree: root aggregator with constraints rootCts and one chain per descriptor.
+func buildTree(rootCts *sx.Node, chains [][]*sx.Node, loads []string) (workflow.Role, task.Descriptors, error) {
+	var b strings.Builder
+	b.WriteString("name: r\n")
+	ctsYAML(&b, "", rootCts)
+	if len(chains) == 0 {
+		b.WriteString("roles: []\n")
+	} else {
+		b.WriteString("roles:\n")
+		for i, ch := range chains {
+			chainYAML(&b, "  ", fmt.Sprintf("d%d", i), ch, loads[i])
+		}
+	}
+	root := workflow.NewAggregatorRole("", nil)
+	if err := yaml.Unmarshal([]byte(b.String()), root); err != nil {
+		return nil, nil, fmt.Errorf("workflow yaml: %v\n%s", err, b.String())
+	}
+	workflow.LinkChildrenToParents(root)
+	ds := root.GenerateTaskDescriptors()
+	if len(ds) != len(chains) {
+		return nil, nil, fmt.Errorf("expected %d descriptors, got %d\n%s", len(chains), len(ds), b.String())
+	}
+	return root, ds, nil
+}
+
+// ---- the pure functions ----------------------------------------------------------------
+
+func runSat(in *sx.Node) (string, error) {
+	ok := attrsOf(in.At(1)).Satisfy(ctsOf(in.At(2)))
+	return wrap(sx.B(ok)), nil
+}
+
+func runMerge(in *sx.Node) (string, error) {
+	return wrap(ctsNode(ctsOf(in.At(1)).MergeParent(ctsOf(in.At(2))))), nil
+}
+
+// payload: (ROLECTS DESCRIPTORCTS)
+func runEff(in *sx.Node) (string, error) {
+	levels := in.At(1).List
+	if len(levels) < 2 {
+		return "", fmt.Errorf("eff: need the task role and a root")
+	}
+	classes := map[string]*taskclass.Class{}
+	if in.At(2).IsList {
+		cl, err := classOf("cls0", sx.L(in.At(2), sx.I(4), sx.I(4), sx.A(""), sx.L()))
+		if err != nil {
+			return "", err
+		}
+		classes["cls0"] = cl
+	}
+	_, ds, err := buildTree(levels[len(levels)-1], [][]*sx.Node{levels[:len(levels)-1]}, []string{"cls0"})
+	if err != nil {
+		return "", err
+	}
+	vs, err := task.VerifNewScheduler(classes)
+	if err != nil {
+		return "", err
+	}
+	cm := vs.DescriptorConstraints(ds)
+	return wrap(sx.L(ctsNode(ds[0].RoleConstraints), ctsNode(cm[ds[0]]))), nil
+}
+
+func wantsOf(n *sx.Node) *task.Wants {
+	w := &task.Wants{Cpu: float64(n.At(0).Int()) / 4, Memory: float64(n.At(1).Int()) / 4}
+	for _, r := range rangesOf(n.At(2)) {
+		w.StaticPorts = append(w.StaticPorts, port.Range{Begin: r.Begin, End: r.End})
+	}
+	for i, c := range n.At(3).List {
+		af := channel.IPC
+		if c.Bool() {
+			af = channel.TCP
+		}
+		w.InboundChannels = append(w.InboundChannels, channel.Inbound{Channel: channel.Channel{Name: fmt.Sprintf("ch%d", i)}, Addressing: af})
+	}
+	return w
+}
+
+func runRes(in *sx.Node) (string, error) {
+	return wrap(sx.B(task.Resources(resOf(in.At(1))).Satisfy(wantsOf(in.At(2))))), nil
+}
+
+// payload: err | (ok (b e)…)
+func runParse(in *sx.Node) (string, error) {
+	rs, err := port.RangesFromExpression(in.At(1).Str())
+	if err != nil {
+		return wrap(sx.A("err")), nil
+	}
+	n := sx.L(sx.A("ok"))
+	for _, r := range rs {
+		n.Add(sx.L(sx.U64(r.Begin), sx.U64(r.End)))
+	}
+	return wrap(n), nil
+}
+
+// ---- makeTaskForMesosResources and the OFFERS round (hooks) ------------------------------
+
+func offerOf(i int, attrs constraint.Attributes, res mesos.Resources) mesos.Offer {
+	return mesos.Offer{
+		ID:         mesos.OfferID{Value: fmt.Sprintf("o%d", i)},
+		AgentID:    mesos.AgentID{Value: fmt.Sprintf("agent%d", i)},
+		Hostname:   fmt.Sprintf("host%d", i),
+		Attributes: attrs,
+		Resources:  res,
+	}
+}
+
+func taskNode(t *task.Task, ti *mesos.TaskInfo, nInbound int) *sx.Node {
+	dyn := sx.L()
+	bm := t.GetLocalBindMap()
+	for i := 0; i < nInbound; i++ {
+		if ep, ok := bm[fmt.Sprintf("ch%d", i)].(channel.TcpEndpoint); ok {
+			dyn.Add(sx.U64(ep.Port))
+		}
+	}
+	var cmd struct {
+		ControlPort uint64 `json:"controlPort"`
+	}
+	_ = json.Unmarshal(ti.Data, &cmd)
+	cpu, _ := resources.CPUs(ti.Resources...)
+	mem := 0.0
+	for _, r := range ti.Resources {
+		if r.GetName() == "mem" {
+			mem += r.GetScalar().GetValue()
+		}
+	}
+	return sx.L(dyn, sx.U64(cmd.ControlPort), sx.I(quarters(cpu)), sx.I(quarters(mem)), portsNode(ti.Resources))
+}
+
+// payload: (ok DYN CTRL CPU MEM REQUEST REMAINING TODECLINE) | (nil REMAINING TODECLINE) | (panic)
+func runMk(in *sx.Node) (obs string, err error) {
+	defer func() {
+		if r := recover(); r != nil {
+			if strings.Contains(fmt.Sprint(r), "index out of range") {
+				obs, err = wrap(sx.L(sx.A("panic"))), nil
+				return
+			}
+			panic(r)
+		}
+	}()
+	cl, err := classOf("cls0", in.At(2))
+	if err != nil {
+		return "", err
+	}
+	vs, err := task.VerifNewScheduler(map[string]*taskclass.Class{"cls0": cl})
+	if err != nil {
+		return "", err
+	}
+	_, ds, err := buildTree(sx.L(), [][]*sx.Node{{sx.L()}}, []string{"cls0"})
+	if err != nil {
+		return "", err
+	}
+	offer := offerOf(0, nil, resOf(sx.L(sx.I(400), sx.I(400000), in.At(1))))
+	remaining := mesos.Resources(offer.Resources)
+	t, ti, toDecline, err := vs.MakeTask(&offer, ds[0], remaining)
+	if err != nil {
+		return "", err
+	}
+	if t == nil || ti == nil {
+		return wrap(sx.L(sx.A("nil"), portsNode(remaining), sx.B(toDecline))), nil
+	}
+	n := sx.L(sx.A("ok"))
+	n.Add(taskNode(t, ti, in.At(2).At(4).Len()).List...)
+	n.Add(portsNode(remaining), sx.B(toDecline))
+	return wrap(n), nil
+}
+
+// roundCrashRisk: could a port draw find no port (unrecovered panic inside a goroutine)?
+// Conservative: every offer must hold, above 29999, one port per TCP channel and per descriptor.
+func roundCrashRisk(in *sx.Node) bool {
+	need := 0
+	for _, d := range in.At(4).List {
+		need++
+		if ci := d.At(1); ci.Str() != "-" && ci.Int() < in.At(1).Len() {
+			for _, c := range in.At(1).At(ci.Int()).At(4).List {
+				if c.Bool() {
+					need++
+				}
+			}
+		}
+	}
+	for _, o := range in.At(3).List {
+		p := o.At(1).At(2)
+		if !p.IsList {
+			continue
+		}
+		high := 0
+		for _, r := range rangesOf(p) {
+			if r.End >= 30000 && r.End >= r.Begin {
+				b := r.Begin
+				if b < 30000 {
+					b = 30000
+				}
+				high += int(r.End-b) + 1
+			}
+		}
+		if high < need {
+			return true
+		}
+	}
+	return false
+}
+
+// payload: (round ((A oid TASK…)…) (D oid…) (U desc…) (X desc…)), TASK = (desc DYN CTRL CPU MEM REQUEST);
+// accepts sorted by offer, declines sorted, U/X in the order the handler reports them.
+func roundPayload(in *sx.Node) (*sx.Node, error) {
+	classes := map[string]*taskclass.Class{}
+	for i, c := range in.At(1).List {
+		cl, err := classOf(fmt.Sprintf("cls%d", i), c)
+		if err != nil {
+			return nil, err
+		}
+		classes[fmt.Sprintf("cls%d", i)] = cl
+	}
+	var chains [][]*sx.Node
+	var loads []string
+	var nInb []int
+	for _, d := range in.At(4).List {
+		chains = append(chains, d.At(0).List)
+		if ci := d.At(1); ci.Str() == "-" {
+			loads = append(loads, "missing")
+			nInb = append(nInb, 0)
+		} else {
+			loads = append(loads, fmt.Sprintf("cls%d", ci.Int()))
+			nInb = append(nInb, in.At(1).At(ci.Int()).At(4).Len())
+		}
+	}
+	var ds task.Descriptors
+	if len(chains) > 0 {
+		var err error
+		_, ds, err = buildTree(in.At(2), chains, loads)
+		if err != nil {
+			return nil, err
+		}
+	}
+	idx := map[*task.Descriptor]int{}
+	for i, d := range ds {
+		idx[d] = i
+	}
+	var offers []mesos.Offer
+	for i, o := range in.At(3).List {
+		offers = append(offers, offerOf(i, attrsOf(o.At(0)), resOf(o.At(1))))
+	}
+	vs, err := task.VerifNewScheduler(classes)
+	if err != nil {
+		return nil, err
+	}
+	out, err := vs.OffersRound(ds, offers)
+	if err != nil {
+		return nil, err
+	}
+	byTask := map[string]*task.Task{}
+	for t := range out.Deployed {
+		byTask[t.GetTaskId()] = t
+	}
+	oid := func(s string) int { n, _ := strconv.Atoi(strings.TrimPrefix(s, "o")); return n }
+	type acc struct {
+		o int
+		n *sx.Node
+	}
+	var accs []acc
+	var decl []int
+	for _, c := range vs.Calls {
+		switch c.GetType() {
+		case scheduler.Call_ACCEPT:
+			a := c.GetAccept()
+			if len(a.GetOfferIDs()) != 1 {
+				return nil, fmt.Errorf("ACCEPT with %d offer ids", len(a.GetOfferIDs()))
+			}
+			o := oid(a.GetOfferIDs()[0].Value)
+			n := sx.L(sx.A("A"), sx.I(o))
+			for _, op := range a.GetOperations() {
+				for i := range op.GetLaunch().GetTaskInfos() {
+					ti := &op.GetLaunch().TaskInfos[i]
+					t := byTask[ti.TaskID.Value]
+					if t == nil {
+						return nil, fmt.Errorf("launched task %s not in the deployment map", ti.TaskID.Value)
+					}
+					d := idx[out.Deployed[t]]
+					tn := sx.L(sx.I(d))
+					tn.Add(taskNode(t, ti, nInb[d]).List...)
+					n.Add(tn)
+				}
+			}
+			accs = append(accs, acc{o, n})
+		case scheduler.Call_DECLINE:
+			for _, id := range c.GetDecline().GetOfferIDs() {
+				decl = append(decl, oid(id.Value))
+			}
+		default:
+			return nil, fmt.Errorf("unexpected call %v", c.GetType())
+		}
+	}
+	sort.SliceStable(accs, func(i, j int) bool { return accs[i].o < accs[j].o })
+	sort.Ints(decl)
+	an, dn, un, xn := sx.L(), sx.L(sx.A("D")), sx.L(sx.A("U")), sx.L(sx.A("X"))
+	for _, a := range accs {
+		an.Add(a.n)
+	}
+	for _, d := range decl {
+		dn.Add(sx.I(d))
+	}
+	for _, d := range out.Undeployed {
+		un.Add(sx.I(idx[d]))
+	}
+	for _, d := range out.Undeployable {
+		xn.Add(sx.I(idx[d]))
+	}
+	return sx.L(sx.A("round"), an, dn, un, xn), nil
+}
+
+func runRound(in *sx.Node, raw string) (string, error) {
+	if !roundCrashRisk(in) {
+		p, err := roundPayload(in)
+		if err != nil {
+			return "", err
+		}
+		return wrap(p), nil
+	}
+	// a port draw may panic inside one of the handler's goroutines, which nothing can recover:
+	// run this input in a child process and report the crash as the observation
+	cmd := fw.ChildCommand("c05-round", raw)
+	var stderr strings.Builder
+	cmd.Stderr = &stderr
+	outb, err := cmd.Output()
+	if err == nil {
+		return strings.TrimSpace(string(outb)), nil
+	}
+	if strings.Contains(stderr.String(), "panic:") && strings.Contains(stderr.String(), "index out of range") &&
+		strings.Contains(stderr.String(), "resourceOffers") {
+		return wrap(sx.L(sx.A("crash"))), nil
+	}
+	return "", fmt.Errorf("round child: %v: %.300s", err, stderr.String())
+}
+
+func childRound(args []string) {
+	if len(args) != 1 {
+		fmt.Fprintln(os.Stderr, "c05-round: want one argument")
+		os.Exit(3)
+	}
+	in, err := sx.Parse(args[0])
+	if err != nil {
+		fmt.Fprintln(os.Stderr, err)
+		os.Exit(3)
+	}
+	p, err := roundPayload(in)
+	if err != nil {
+		fmt.Fprintln(os.Stderr, err)
+		os.Exit(3)
+	}
+	fmt.Println(wrap(p))
+}
+
+func runImpl(input string) (string, error) {
+	probe()
+	in, err := sx.Parse(input)
+	if err != nil {
+		return "", err
+	}
+	switch in.At(0).Str() {
+	case "sat":
+		return runSat(in)
+	case "merge":
+		return runMerge(in)
+	case "eff":
+		return runEff(in)
+	case "res":
+		return runRes(in)
+	case "parse":
+		return runParse(in)
+	case "mk":
+		return runMk(in)
+	case "round":
+		return runRound(in, input)
+	}
+	return "", fmt.Errorf("unknown case kind %q", in.At(0).Str())
+}
